@@ -87,16 +87,24 @@ pub fn last_sat_location_precompile(call: &PrecompileCall) -> InterpreterResult 
         return precompile_error(interpreter_result, "Invalid response");
     };
 
-    let mut total_vout_sat_count = 0;
+    // Amounts of an overridden (or otherwise unvalidated) transaction are arbitrary u64 values:
+    // their sums need not fit
+    let mut total_vout_sat_count: u64 = 0;
     let mut current_vout_index = 0;
     while current_vout_index < vout {
         let value = raw_tx_info.output[current_vout_index].value.to_sat();
-        total_vout_sat_count += value;
+        let Some(sum) = total_vout_sat_count.checked_add(value) else {
+            return precompile_error(interpreter_result, "Sat count overflow");
+        };
+        total_vout_sat_count = sum;
         current_vout_index += 1;
     }
-    total_vout_sat_count += sat;
+    let Some(sum) = total_vout_sat_count.checked_add(sat) else {
+        return precompile_error(interpreter_result, "Sat count overflow");
+    };
+    total_vout_sat_count = sum;
 
-    let mut total_vin_sat_count = 0;
+    let mut total_vin_sat_count: u64 = 0;
     let mut current_vin_index = 0;
     let mut result_vin_txid: FixedBytes<32>;
     let mut result_vin_vout: u32;
@@ -137,7 +145,10 @@ pub fn last_sat_location_precompile(call: &PrecompileCall) -> InterpreterResult 
         current_vin_value = current_vin.value.to_sat();
         old_pkscript = Bytes::from(current_vin.script_pubkey.clone().into_bytes());
 
-        total_vin_sat_count += current_vin_value;
+        let Some(sum) = total_vin_sat_count.checked_add(current_vin_value) else {
+            return precompile_error(interpreter_result, "Sat count overflow");
+        };
+        total_vin_sat_count = sum;
         current_vin_index += 1;
         if total_vin_sat_count >= total_vout_sat_count || current_vin_index >= vin_count {
             break;
